@@ -47,10 +47,16 @@ def _decode_escape_sequence(  # noqa: PLR0911
     if ch == "t":
         return "\t", index
     if ch == "x":
-        # TODO: handle incomplete \x escape sequence
-        return chr(int(value[index + 1 : index + 3], 16)), index + 2
+        digits = value[index + 1 : index + 3]
+        if len(digits) != 2:  # noqa: PLR2004
+            raise PestGrammarSyntaxError("incomplete \\x escape sequence", token=token)
+        return chr(_parse_hex_digits(digits, token)), index + 2
     if ch == "u":
         codepoint, index = _decode_hex_char(value, index, token)
+        if codepoint > 0x10FFFF:  # noqa: PLR2004
+            raise PestGrammarSyntaxError(
+                "\\u{XXXXXX} escape sequence out of range", token=token
+            )
         # `index` is past the closing brace; the caller moves past the last
         # character of the escape sequence.
         return chr(codepoint), index - 1
@@ -64,6 +70,9 @@ def _decode_escape_sequence(  # noqa: PLR0911
 def _decode_hex_char(value: str, index: int, token: Token) -> tuple[int, int]:
     # TODO: use a regular expression?
     index += 1  # move past 'u'
+
+    if index >= len(value):
+        raise PestGrammarSyntaxError("incomplete escape sequence", token=token)
 
     if value[index] != "{":
         raise PestGrammarSyntaxError(
